@@ -46,3 +46,24 @@ Theorem C07_converter_hypotheses_satisfiable :
   schema_okb w_schema = true /\ frags_okb w_schema [w_frag] = true /\ forallb (op_okb w_schema [w_frag]) [w_op] = true.
 Proof. exact w_program_is_wf. Qed.
 Print Assumptions C07_converter_hypotheses_satisfiable.
+
+(* FULL no-panic theorem for the converter.  With the slightly stronger shape facts that the
+   grammar and the preprocessing give (every field has a non-empty alias; a selection set has at
+   most one synthesised __typename and at least one other node) the flatten index sites are
+   unreachable too: validateFlattenOption only returns an index for `{ ...F }`, `{ __typename ...F }`
+   or `{ ...F __typename }` with a matching fragment, and then the converted fields have that
+   index.  So the model of convert.go NEVER reaches a Panic site, for every schema, configuration,
+   fragment table, source text, operation list and fuel.  (OutOfFuel is not excluded here: the
+   correspondence exercises it.) *)
+From Verif Require Import Proofs.ConvertNoPanicFull.
+Theorem C07_converter_never_panics :
+  forall sch cfg frags srcs ops,
+  schema_okb sch = true -> frags_okb2 sch frags = true -> forallb (op_okb2 sch frags) ops = true ->
+  forall s, generate_types sch cfg frags srcs ops <> Panic s.
+Proof. exact converter_never_panics. Qed.
+Print Assumptions C07_converter_never_panics.
+
+Theorem C07_converter_full_hypotheses_satisfiable :
+  schema_okb w_schema = true /\ frags_okb2 w_schema [w_frag] = true /\ forallb (op_okb2 w_schema [w_frag]) [w_op] = true.
+Proof. exact w_program_is_wf2. Qed.
+Print Assumptions C07_converter_full_hypotheses_satisfiable.
